@@ -423,6 +423,25 @@ func OnWait(budget int, f func()) {
 // properties proved under it hold a fortiori). Natively a no-op.
 func SleepMayReturnEarly() {}
 
+// ZipModel / UnzipModel: contract model of compressutil.DoZip / UnZip used through
+// `//vf:stub …compressutil.DoZip ZipModel+` (gzip itself cannot be executed symbolically):
+// UnzipModel(ZipModel(x)) == x; ZipModel(x) = marker byte 0x1f followed by x.
+func ZipModel(in []byte) ([]byte, error) {
+	if in == nil {
+		return nil, fmt.Errorf("error input data is nil ")
+	}
+	return append([]byte{0x1f}, in...), nil
+}
+func UnzipModel(in []byte) ([]byte, error) {
+	if len(in) == 0 {
+		return []byte{}, fmt.Errorf("EOF")
+	}
+	if in[0] != 0x1f {
+		return []byte{}, fmt.Errorf("gzip: invalid header")
+	}
+	return append([]byte{}, in[1:]...), nil
+}
+
 // ClockNow returns a virtual, non-decreasing clock value (milliseconds).
 func ClockNow() int64 {
 	d := int64(nextU("clk"))
